@@ -70,11 +70,11 @@ static int P;                    /* property number */
 static Ctx *cur;
 static void h_str(const char *msg, void *ptr, int err) {
     (void)msg; (void)ptr;
-    if (cur) { if (cur->h_n < 4) { cur->h_code[cur->h_n] = err; cur->h_kind[cur->h_n] = 0; } cur->h_n++; }
+    if (cur) { if (cur->h_n < 4) { cur->h_code[cur->h_n] = err; cur->h_kind[cur->h_n] = 0; } cur->h_n++; } errno = 0;   /* a handler may do anything: errno is not preserved across it */
 }
 static void h_mem(const char *msg, void *ptr, int err) {
     (void)msg; (void)ptr;
-    if (cur) { if (cur->h_n < 4) { cur->h_code[cur->h_n] = err; cur->h_kind[cur->h_n] = 1; } cur->h_n++; }
+    if (cur) { if (cur->h_n < 4) { cur->h_code[cur->h_n] = err; cur->h_kind[cur->h_n] = 1; } cur->h_n++; } errno = 0;
 }
 
 /* ---------------------------------------------------------------- fault handling */
@@ -244,6 +244,8 @@ static void materialise(Ctx *x) {
             if (c->d_pk == 1) {
                 for (long i = 0; i < c->d_pl && i < ne; i++) eset(x->dh, f->w, i, 'p' + (i % 8));
                 if (c->d_pl < ne) eset(x->dh, f->w, c->d_pl, 0);
+                /* behind the prior string: remains of older, longer contents - stale data with terminators of its own in between */
+                for (long i = c->d_pl + 3; i < ne; i += 5) eset(x->dh, f->w, i, 0);
             }
         }
         memcpy(x->dsnap, x->dh, x->dbytes < sizeof x->dsnap ? x->dbytes : sizeof x->dsnap);
@@ -265,7 +267,8 @@ static void materialise(Ctx *x) {
         }
         memcpy(x->ssnap, x->sh, x->sbytes < sizeof x->ssnap ? x->sbytes : sizeof x->ssnap);
     }
-    if (c->alias && x->dh) { x->sh = x->dh; x->sbytes = x->dbytes; memcpy(x->ssnap, x->dsnap, x->dbytes < sizeof x->ssnap ? x->dbytes : sizeof x->ssnap); }
+    if (c->alias == 2 && x->dh && x->dbytes > (size_t)f->w) { x->sh = x->dh + f->w; x->sl_ = x->dl + f->w; x->sbytes = x->dbytes - f->w; memcpy(x->ssnap, x->dsnap + f->w, x->sbytes < sizeof x->ssnap ? x->sbytes : sizeof x->ssnap); }
+    else if (c->alias && x->dh) { x->sh = x->dh; x->sbytes = x->dbytes; memcpy(x->ssnap, x->dsnap, x->dbytes < sizeof x->ssnap ? x->dbytes : sizeof x->ssnap); }
 }
 
 typedef long (*ufn)(long, long, long, long, long, long, long, long, long, long);
@@ -280,7 +283,7 @@ static void do_call(Ctx *x) {
     for (char *t = strtok(sig, " "); t; t = strtok(NULL, " ")) {
         long v = 0;
         if (!strcmp(t, "D") || !strcmp(t, "Q") || !strcmp(t, "M") || !strcmp(t, "K")) v = c->d_null ? 0 : (long)x->dl;
-        else if (!strcmp(t, "S") || !strcmp(t, "T")) v = c->s_null ? 0 : c->alias ? (long)x->dl : (long)x->sl_;
+        else if (!strcmp(t, "S") || !strcmp(t, "T")) v = c->s_null ? 0 : c->alias == 1 ? (long)x->dl : (long)x->sl_;
         else if (!strcmp(t, "n")) v = (long)c->dmax;
         else if (!strcmp(t, "l")) v = (long)c->slen;
         else if (!strcmp(t, "c")) v = c->c;
@@ -407,6 +410,7 @@ static const char *relclass(const Ctx *x, char *b) {
     if (hs && c->s_null) p += sprintf(p, "snull,");
     if (hs && has_tok(f, "l") && c->s_huge >= 2) p += sprintf(p, "slen>lim,");
     if (c->o_null) p += sprintf(p, "onull,");
+    if (c->alias == 2) p += sprintf(p, "src=dest+1,"); else
     if (c->alias) p += sprintf(p, "same-pointer,");
     if (p == b || (c->alias && p == b + 13)) {
         if (c->d_huge == 1) p += sprintf(p, "dmax=lim,");
@@ -719,7 +723,7 @@ void gen_generic(int fi) {
         for (int isl = 0; isl < nslv; isl++)
         for (int sbos = 0; sbos <= (has_bs ? 1 : 0); sbos++)
         for (int ion = 0; ion <= (has_o ? 1 : 0); ion++)
-        for (int al = 0; al <= (has_src ? 1 : 0); al++)
+        for (int al = 0; al <= (has_src ? ((f->flags & F_OV) ? 2 : 1) : 0); al++)   /* 1: src is dest itself, 2: src is dest + one element (partial overlap) */
         for (int pk = 0; pk < 2; pk++) {
             if ((f->flags & F_NONULL) && (idn || isn)) continue;   /* no documented null-pointer constraint */
             memset(&c, 0, sizeof c);
@@ -750,7 +754,8 @@ void gen_generic(int fi) {
             if (!src_str) { c.s_len = c.s_obj; c.s_term = 0; }
             if ((f->flags & F_SAMELEN) && c.d_huge < 2) { c.s_obj = c.d_obj > 0 ? c.d_obj : 1; c.s_len = c.s_obj; }
             c.o_null = ion; c.c = 'a'; c.k = 1; c.alias = al;
-            if (al) { for (int q = 0; q < 4; q++) { static const size_t sq[4] = { 1, 2, 5, 4097 }; c.slen = sq[q]; c.s_huge = c.slen > fn_slimit(f) ? 2 : 0; emit(&c); if (!has_l) break; } }
+            if (al == 2) { if (c.d_obj * f->dunit / f->w < 3) continue; for (int q = 0; q < 2; q++) { c.slen = q + 1; c.s_huge = 0; emit(&c); if (!has_l) break; } }
+            else if (al) { for (int q = 0; q < 4; q++) { static const size_t sq[4] = { 1, 2, 5, 4097 }; c.slen = sq[q]; c.s_huge = c.slen > fn_slimit(f) ? 2 : 0; emit(&c); if (!has_l) break; } }
             else emit(&c);
         }
     }
@@ -778,6 +783,14 @@ void gen_query(int fi) {
             for (int dv = 0; dv < 3; dv++) {
                 size_t dmax = dv == 0 ? dl + 1 : dv == 1 ? dl + 3 : dl;
                 if (dmax == 0) continue;
+                /* the second operand is the first one (same pointer), with every count up to the string's length + 1 */
+                if (has_src && src_str && dv != 2) for (int sl2 = has_l ? 1 : 0; sl2 <= (has_l ? dl + 1 : 0); sl2++) for (int place = 0; place < 2; place++) {
+                    memset(&c, 0, sizeof c);
+                    c.fn = fi; c.place = place; c.dmax = dmax; c.d_obj = dmax; c.d_pk = 2; c.dxn = dl + 1; memcpy(c.dx, ds, dl); c.dx[dl] = 0;
+                    if (dv == 1) { c.dxn = dl + 3; c.dx[dl + 1] = 'a'; c.dx[dl + 2] = 0; }
+                    c.d_pl = dl; c.alias = 1; c.slen = sl2; c.s_obj = dmax; c.s_len = dl; c.s_term = 1; c.s_k = 2; c.sxn = 0;
+                    emit(&c);
+                }
                 int sl_lo = 0, sl_hi = has_src ? maxlen : 0;
                 for (int sln = sl_lo; sln <= sl_hi; sln++) {
                     long nsl = 1; for (int i = 0; i < sln; i++) nsl *= na;
